@@ -20,6 +20,7 @@ RULE = ('class shapes: inheritance chains of depth 1-3 with auto_persist at some
         'value, bound method of self, nested Savable (recursive to depth 2), SavableFuture pending / result / exception / cancelled} x member '
         'values x loader configuration {default, global custom, per-save custom (found through the saved state), unknown class}; distinct by '
         '(shape, values, loader mode); non-trivial when >=2 member kinds are present')
+RULE += ('; also: members declared from the persist() hook or saved manually, ancestors saved before / after, futures resolved with a Savable, a shadowing class, a class name rebound after the first save, load and save contexts reused across saves')
 ASSUMPTIONS = ['custom loaders are constructible without arguments (the saved state records the loader class)', 'exceptions compare by type and args']
 REQUIRED = ['roundtrips', 'kinds/plain', 'kinds/method', 'kinds/savable', 'kinds/future', 'future_states/pending', 'future_states/result',
             'future_states/exception', 'future_states/cancelled', 'future_states/result-savable', 'manually_saved', 'hook_declared', 'loader/default', 'loader/global', 'loader/persave', 'loader/unknown', 'loader/ctxreuse',
